@@ -24,7 +24,8 @@ def classes(a, spec, res):
 
 
 def subchecks(tier):
-    prof = common.full_profile(horizon=(6.0, 18.0), load="heavy")
-    prof.weights.update({"ps": 0.0, "inf": 0.1, "slotted": 0.0, "schedule": 0.45, "discipline": 0.5})
+    prof = common.full_profile("C05", horizon=(6.0, 18.0), load="heavy")
+    # slotted nodes are outside the property but may sit upstream of the nodes it speaks about
+    prof.weights.update({"ps": 0.0, "inf": 0.1, "slotted": 0.25, "slot_capacitated": 0.7, "slot_preempt": 0.7, "schedule": 0.45, "discipline": 0.5})
     return [system_subcheck("lattice", prof, lambda spec: [WorkConservation()], nontrivial, classes=classes,
                             n={"quick": 9600, "thorough": 50000}, rule="finite-server lattice; idle-server-vs-waiting monitor + coverage audit")]
